@@ -6,7 +6,10 @@ S2C: every row (at most MaxDev non-default fields) is a real upgrade request thr
      web.Application + WebSocketHandler, or a scripted answer to the real websocket_connect
      client; the verdict clauses (must / may complete, accept value recomputed with hashlib,
      subprotocol, extension response, upgrade really happened / did not happen) are judged against
-     the row's TLC-computed verdict.
+     the row's TLC-computed verdict.  Origin rows include an empty Origin value and the hybi-08
+     Sec-WebSocket-Origin header (alone, and contradicting Origin); extension rows include offers
+     the server has to decline (window bits 7 / 16 / non-numeric), after which the server's own
+     frames are inspected: no extension in the response => no RSV1 on the wire.
 
 Binding demonstrated in a scratch worktree (see notes/ws.md): an `endswith` origin comparison, a
 substring test for the Connection token and a client that does not compare the accept value are
